@@ -97,8 +97,13 @@ func parseConf(t reflect.Type, data interface{}) (name string, fillConf func(con
 }
 
 func toStringKeyMap(data interface{}) (out map[string]interface{}, err error) {
-	out, ok := data.(map[string]interface{})
+	strKeyData, ok := data.(map[string]interface{})
 	if ok {
+		// Copy: parseConf removes the plugin name key, and the caller's map is decoded again by every factory call.
+		out = make(map[string]interface{}, len(strKeyData))
+		for key, val := range strKeyData {
+			out[key] = val
+		}
 		return
 	}
 	untypedKeyData, ok := data.(map[interface{}]interface{})
